@@ -49,14 +49,24 @@ func H_C06_two_waiters() {
 var hRejItems = []Item[int]{{ID: "a", Data: 1}, {ID: "b", Data: 2}, {ID: "c", Data: 3}}
 
 func H_C08_rejected_result_fifo() {
-	_, q := mResultWorker(func(j Job[int]) (int, error) { return 0, nil }, 1, 1)
+	w, q := mResultWorker(func(j Job[int]) (int, error) { return 0, nil }, 1, 1)
 	q.Close()
 	g := q.AddAll(hRejItems)
 	vAssert("C08.rejected.result-fifo.numpending", g.NumPending() == 0)
-	_, ok := <-g.Results()
-	vAssert("C08.rejected.result-fifo.stream-closed", !ok)
+	vAssert("C17.rejected.result-fifo.not-submitted", w.Metrics().Submitted() == 0 && w.NumPending() == 0)
 	vPrologueEnd()
-	vReach("C08.rejected.result-fifo.end")
+	// read the stream from a goroutine: a stream that is never closed must show up as a failed assertion at rest,
+	// not as a harness that blocks before its own assertions
+	closedSeen, gotValue := false, false
+	go func() {
+		_, ok := <-g.Results()
+		gotValue = ok
+		closedSeen = !ok
+	}()
+	vAtQuiescence(func() {
+		vReach("C08.rejected.result-fifo.end")
+		vAssert("C08.rejected.result-fifo.stream-closed", closedSeen && !gotValue)
+	})
 }
 
 func H_C08_rejected_result_pq() {
@@ -65,21 +75,41 @@ func H_C08_rejected_result_pq() {
 	q.Close()
 	g := q.AddAll(hRejItems)
 	vAssert("C08.rejected.result-pq.numpending", g.NumPending() == 0)
-	_, ok := <-g.Results()
-	vAssert("C08.rejected.result-pq.stream-closed", !ok)
+	vAssert("C17.rejected.result-pq.not-submitted", wb.worker.Metrics().Submitted() == 0 && wb.worker.NumPending() == 0)
 	vPrologueEnd()
-	vReach("C08.rejected.result-pq.end")
+	// read the stream from a goroutine: a stream that is never closed must show up as a failed assertion at rest,
+	// not as a harness that blocks before its own assertions
+	closedSeen, gotValue := false, false
+	go func() {
+		_, ok := <-g.Results()
+		gotValue = ok
+		closedSeen = !ok
+	}()
+	vAtQuiescence(func() {
+		vReach("C08.rejected.result-pq.end")
+		vAssert("C08.rejected.result-pq.stream-closed", closedSeen && !gotValue)
+	})
 }
 
 func H_C08_rejected_err_fifo() {
-	_, q := mErrWorker(func(j Job[int]) error { return nil }, 1, 1)
+	w, q := mErrWorker(func(j Job[int]) error { return nil }, 1, 1)
 	q.Close()
 	g := q.AddAll(hRejItems)
 	vAssert("C08.rejected.err-fifo.numpending", g.NumPending() == 0)
-	_, ok := <-g.Errs()
-	vAssert("C08.rejected.err-fifo.stream-closed", !ok)
+	vAssert("C17.rejected.err-fifo.not-submitted", w.Metrics().Submitted() == 0 && w.NumPending() == 0)
 	vPrologueEnd()
-	vReach("C08.rejected.err-fifo.end")
+	// read the stream from a goroutine: a stream that is never closed must show up as a failed assertion at rest,
+	// not as a harness that blocks before its own assertions
+	closedSeen, gotValue := false, false
+	go func() {
+		_, ok := <-g.Errs()
+		gotValue = ok
+		closedSeen = !ok
+	}()
+	vAtQuiescence(func() {
+		vReach("C08.rejected.err-fifo.end")
+		vAssert("C08.rejected.err-fifo.stream-closed", closedSeen && !gotValue)
+	})
 }
 
 func H_C08_rejected_err_pq() {
@@ -88,10 +118,20 @@ func H_C08_rejected_err_pq() {
 	q.Close()
 	g := q.AddAll(hRejItems)
 	vAssert("C08.rejected.err-pq.numpending", g.NumPending() == 0)
-	_, ok := <-g.Errs()
-	vAssert("C08.rejected.err-pq.stream-closed", !ok)
+	vAssert("C17.rejected.err-pq.not-submitted", wb.worker.Metrics().Submitted() == 0 && wb.worker.NumPending() == 0)
 	vPrologueEnd()
-	vReach("C08.rejected.err-pq.end")
+	// read the stream from a goroutine: a stream that is never closed must show up as a failed assertion at rest,
+	// not as a harness that blocks before its own assertions
+	closedSeen, gotValue := false, false
+	go func() {
+		_, ok := <-g.Errs()
+		gotValue = ok
+		closedSeen = !ok
+	}()
+	vAtQuiescence(func() {
+		vReach("C08.rejected.err-pq.end")
+		vAssert("C08.rejected.err-pq.stream-closed", closedSeen && !gotValue)
+	})
 }
 
 // ---- C09: two pending jobs, concurrency 1, REAL loop: the first job may finish while the dispatcher is still in
